@@ -266,7 +266,11 @@ def run(tier, seed, replay):
                 ("%env(\"GV_EMPTY\", \"dflt\")%", ("S", "")), ("%envInt(\"GV_INT\")%", ("I", "42")), ("%envInt(\"GV_INT\")%0", ("S", "420")), ("%envInt(\"GV_BAD\")%", ("E", None)),
                 ("%envInt(\"GV_NOPE\", 7)%", ("I", "7")), ("%envInt(\"GV_NOPE\")%", ("E", None)), ("%envInt(\"GV_Z\")%", ("I", "7")), ("%envInt(\"GV_NEG0\")%", ("I", "0")),
                 ("%envInt(\"GV_PLUS\")%", ("I", "5")), ("%envInt(\"GV_BIG\")%", ("E", None)), ("%envInt(\"GV_MIN\")%", ("I", "-9223372036854775808")), ("%envInt(\"GV_EMPTY\")%", ("E", None)),
-                ("%envInt(\"GV_EMPTY\", 3)%", ("E", None)), ("x%env(\"GV_SET\")%y%envInt(\"GV_INT\")%", ("S", "x" + E["GV_SET"] + "y42")), ("%todo()%", ("E", None)), ("%todo(\"msg\")%", ("E", None)),
+                ("%envInt(\"GV_EMPTY\", 3)%", ("E", None)),
+                # the variable's text is handed to strconv.Atoi as it is: white space around the digits, other bases, separators, exponents are errors
+                ("%envInt(\"GV_PADL\")%", ("E", None)), ("%envInt(\"GV_PADNL\")%", ("E", None)), ("%envInt(\"GV_PADT\", 5)%", ("E", None)), ("%envInt(\"GV_HEX\")%", ("E", None)),
+                ("%envInt(\"GV_UND\")%", ("E", None)), ("%envInt(\"GV_EXP\")%", ("E", None)), ("host:%envInt(\"GV_PADL\")%", ("E", None)),
+                ("%env(\"GV_PADL\")%", ("S", " 8080")), ("%env(\"GV_PADNL\")%", ("S", "8080\n")), ("[%env(\"GV_PADT\")%]", ("S", "[\t7\t]")), ("x%env(\"GV_SET\")%y%envInt(\"GV_INT\")%", ("S", "x" + E["GV_SET"] + "y42")), ("%todo()%", ("E", None)), ("%todo(\"msg\")%", ("E", None)),
                 ("%todo(\"50\\x25 of the disk\")%", ("Emsg", "50% of the disk")), ("%todo(\"100\\u0025d done, 5\\x25s left\")%", ("Emsg", "100%d done, 5%s left")),
                 ("x %todo(\"\\x25v\\x25!\")% y", ("Emsg", "%v%!")), ("%todo(\"plain message\")%", ("Emsg", "plain message")), ("%todo()%", ("Emsg", "parameter todo")),
                 ("pre %env(\"GV_NOPE\")%", ("E", None)), ("%env(\"GV_NOPE\")% post", ("E", None)), ("%env(\"GV_SET\")%%env(\"GV_NOPE\")%", ("E", None))]
